@@ -309,7 +309,7 @@ def run_api(case: dict) -> CaseResult:
 
 # ------------------------------------------------------------------ generators
 NAMES = [None, "dev", "", "kitchen", "küche-✓", "Dev", "dev2", "d", "dev\x00AABBCCDDEEFF", "kitchen\x00AABBCCDDEEFF", "dev\x00mac\x00x",
-         "n" * 62, "n" * 63, "n" * 64, "n" * 65, "long-" * 40, "ü" * 32, "k" * 200 + "\x00AABBCCDDEEFF"]
+         "dev-2", "dev-aabbcc", "kitchen-1", "de", "n" * 62, "n" * 63, "n" * 64, "n" * 65, "long-" * 40, "ü" * 32, "k" * 200 + "\x00AABBCCDDEEFF"]
 
 
 @st.composite
@@ -383,7 +383,7 @@ def strategy(tier):
 def enumerated(tier):
     key = bytes(range(32)).hex()
     msgs = [[26, {"h": "0d010000001001"}], [7, {"h": ""}], [35, {"h": "", "pad": [0x41, 300]}], [8, {"h": ""}]]
-    for name in [None, "dev", "", "kitchen", "küche", "n" * 63, "n" * 64, "n" * 100, "ü" * 32]:
+    for name in [None, "dev", "", "kitchen", "küche", "dev-2", "n" * 63, "n" * 64, "n" * 100, "ü" * 32]:
         for exp in [None, "dev", "kitchen", "Dev", "", "n" * 64]:
             exp = exp or None if exp == "" else exp
             nlen = 0 if name is None else len(name.encode()) + 1
